@@ -195,3 +195,34 @@ Section Contract.
       map (fun x => ACreated (fst x) (d ++ snd x) true) (desc [] (sub d))
     end.
 End Contract.
+
+(* --------------------------------------------------------------- executable batch hypotheses
+   The item (inode) an operation flags ItemRenamed: a rename inside the tree, a move out, a move in. *)
+Definition rename_subject (f : fs) (o : op) : option N :=
+  match o with
+  | ORename s _ | OMoveOut s => match lookup f s with Some e => Some (e_ino e) | None => None end
+  | OMoveIn _ _ i _ => Some i
+  | _ => None
+  end.
+
+Fixpoint rename_subjects (f : fs) (ops : list op) : list N :=
+  match ops with
+  | [] => []
+  | o :: r => (match rename_subject f o with Some i => [i] | None => [] end) ++ rename_subjects (apply_op f o) r
+  end.
+
+Fixpoint nodupb (l : list N) : bool :=
+  match l with
+  | [] => true
+  | x :: r => negb (existsb (N.eqb x) r) && nodupb r
+  end.
+
+(* no item is the subject of two rename-flagged operations inside the batch *)
+Definition one_rename_per_item (f : fs) (ops : list op) : bool := nodupb (rename_subjects f ops).
+
+(* no two events of the batch concern the same item at the same path (nothing to coalesce) *)
+Fixpoint distinct_itemsb (l : list fnative) : bool :=
+  match l with
+  | [] => true
+  | e :: r => negb (existsb (same_item e) r) && distinct_itemsb r
+  end.
